@@ -21,16 +21,19 @@ BONDS = [(1, 2), (3, 4), (6, 5), (7, 8), (9, 10), (11, 12), (1, 3)]
 CELLS = [None, [[640, 0, 0], [0, 680, 0], [0, 0, 720]], [[640, 0, 0], [-200, 640, 0], [-160, -240, 600]]]
 
 
-def model_topology():
+def model_topology(order=None):
+    """order: creation order of the model's atoms (a permutation of 0..12); atom k of the model gets index order.index(k)"""
     import mdtraj as md
     from mdtraj.core import element as E
     top = md.Topology(); ch = top.add_chain()
     res = {}
-    atoms = []
-    for rn, nm, el in MODEL:
+    for rn, _nm, _el in MODEL:
         if rn not in res:
             res[rn] = top.add_residue(rn, ch)
-        atoms.append(top.add_atom(nm, E.get_by_symbol(el), res[rn]))
+    atoms = {}
+    for k in (order if order is not None else range(len(MODEL))):
+        rn, nm, el = MODEL[k]
+        atoms[k] = top.add_atom(nm, E.get_by_symbol(el), res[rn])
     for i, j in BONDS:
         top.add_bond(atoms[i - 1], atoms[j - 1])
     return top
@@ -56,6 +59,15 @@ def _triplet_case(rec):
     exp = sorted(tuple(x) for x in rec["trip"])
     if got != exp:
         return "candidate triplets differ: missing %s extra %s" % (sorted(set(exp) - set(got)), sorted(set(got) - set(exp)))
+    # the same molecule with its atoms listed in another order (reversed: every hydrogen precedes the atom it is bonded to; and a
+    # shuffle): which triplets are candidates depends on elements, bonds and residues, not on the atom numbering
+    for order in (list(range(len(MODEL) - 1, -1, -1)), [int(v) for v in np.random.RandomState(len(rec["trip"]) + 3).permutation(len(MODEL))]):
+        top2 = model_topology(order)
+        t2 = md.Trajectory(xyz[:, order], top2)
+        g2 = md.baker_hubbard(t2, freq=-0.5, exclude_water=rec["xw"], sidechain_only=rec["sc"], distance_cutoff=100.0, angle_cutoff=-10.0, periodic=False)
+        g2 = sorted(tuple(order[int(x)] + 1 for x in row) for row in g2)
+        if g2 != exp:
+            return "candidate triplets differ when the atoms are listed in the order %s: missing %s extra %s" % (order, sorted(set(exp) - set(g2)), sorted(set(g2) - set(exp)))
     gw = md.wernet_nilsson(md.Trajectory(np.zeros((1, len(MODEL), 3), dtype=np.float32) + xyz * 0.01, top), exclude_water=rec["xw"], sidechain_only=rec["sc"], periodic=False)
     return None
 
